@@ -48,10 +48,11 @@ static void tail(Ctx *c)
 	a[0] = b[0] = 0;
 	if (st.curr_file) idof(st.curr_file, a);
 	if (st.basic_curr) idof(st.basic_curr, b);
-	fprintf(c->out, ",\"proj\":{\"ctype\":\"%s\",\"cur\":\"%s\",\"curRefs\":%u,\"bcur\":\"%s\",\"bRefs\":%u,\"rem\":%zu,\"beof\":%s,\"dec\":%s,\"inner\":%s,\"stack\":[",
+	fprintf(c->out, ",\"proj\":{\"ctype\":\"%s\",\"cur\":\"%s\",\"curRefs\":%u,\"bcur\":\"%s\",\"bRefs\":%u,\"rem\":%zu,\"beof\":%s,\"dec\":%s,\"inner\":%s,\"pol\":\"%s\",\"stack\":[",
 	        ctn[st.curr_file_type], a, st.curr_file ? st.curr_file->_refcount : 0, b, st.basic_curr ? st.basic_curr->_refcount : 0,
 	        st.basic_remaining > 2000000000u ? 2000000000u : st.basic_remaining, st.basic_eof ? "true" : "false",
-	        st.decoder_open ? "true" : "false", st.inner_decoder_open ? "true" : "false");
+	        st.decoder_open ? "true" : "false", st.inner_decoder_open ? "true" : "false",
+	       st.dir_policy == LHA_READER_DIR_PLAIN ? "plain" : st.dir_policy == LHA_READER_DIR_END_OF_FILE ? "eof" : st.dir_policy == LHA_READER_DIR_END_OF_DIR ? "eod" : "?");
 	for (unsigned i = 0; i < st.n_dir_stack; i++) { idof(st.dir_stack[i], a); fprintf(c->out, "%s[\"%s\",%u]", i ? "," : "", a, st.dir_stack[i]->_refcount); }
 	fprintf(c->out, "],\"deferred\":[");
 	for (unsigned i = 0; i < st.n_deferred; i++) { idof(st.deferred[i], a); fprintf(c->out, "%s[\"%s\",%u]", i ? "," : "", a, st.deferred[i]->_refcount); }
